@@ -262,6 +262,10 @@ def check_C15(tier, seed):
         corpus.append(("restriction:" + lab, t, "-", "err"))
     corpus.append(("restriction:" + MEMO_NOCLONE[0], MEMO_NOCLONE[1], MEMO_NOCLONE[2], "err"))
     corpus.append(("restriction:" + MEMO_NOCLONE[0] + " (empty derives)", MEMO_NOCLONE[1], "=", "err"))
+    for k, t in enumerate(["@export @memoize @leftrec A = A 'x' | 'b';", "@export @leftrec @memoize A = l:*A '+' r:B | r:B; B = 'b';",
+                           "@export S = a:A; @position @leftrec @check(crate::f) @memoize A = A 'x' | 'b';", "@export S = a:A $; @memoize A = 'a' | '(' a:*A ')';"]):
+        for der in ("Debug", "=", "Debug,PartialEq"):
+            corpus.append(("restriction:memoize(+leftrec) without Clone #%d/%s" % (k, der), t, der, "err"))
     corpus.append(("restriction:leftrec without Clone", "@export @leftrec A = A 'x' | 'b';", "Debug", "any"))
     for t in HOSTILE:
         corpus.append(("hostile:" + t[:30], t, "-", "any"))
